@@ -5,7 +5,7 @@ package util
 // paths is run on a real trie (memory store) and compared, after every step, with a Go map:
 // lookups of all paths, the error of deleting an absent path, and full iteration.
 // property: C01
-// scope: paths {"", 12, 13, 1234, 1235, 12ab, 12abcd, 5678}; values {x, a:b} (one with the separator byte); removals alternate between Delete, Insert(nil) and Insert(empty value); an over-size value (limit+1 bytes) is offered after every one-operation history; all sequences of <= 3 operations (quick) / <= 4 (thorough), from the empty trie and from base contents {12,1234,5678}, {12,1234,1235} on the memory store; base {12,1234,5678} also on a layered store one version above the base and on the persistent store
+// scope: paths {"", 12, 13, 1234, 1235, 12ab, 12abcd, 12cd, 5678}; values {x, a:b} (one with the separator byte); removals alternate between Delete, Insert(nil) and Insert(empty value); an over-size value (limit+1 bytes) is offered after every one-operation history; all sequences of <= 3 operations (quick) / <= 4 (thorough), from the empty trie and from base contents {12,1234,5678}, {12,1234,1235} on the memory store; base {12,1234,5678} also on a layered store one version above the base and on the persistent store
 
 import (
 	"context"
@@ -33,7 +33,7 @@ type c01op struct {
 }
 
 func TestGocvBoundedC01(t *testing.T) {
-	paths := []string{"", "12", "13", "1234", "1235", "12ab", "12abcd", "5678"}
+	paths := []string{"", "12", "13", "1234", "1235", "12ab", "12abcd", "12cd", "5678"} // 12ab / 12cd: two children in letter slots
 	var ops []c01op
 	for _, p := range paths {
 		ops = append(ops, c01op{false, p, "x"}, c01op{false, p, "a:b"}, c01op{true, p, ""})
@@ -183,7 +183,7 @@ func TestGocvBoundedC01(t *testing.T) {
 		base = []string{"12", "1234", "5678"}
 		run(nil)
 	}
-	fmt.Printf("GOCV-BOUNDED cases=%d failures=%d scope=\"all sequences of <= %d insert/update/delete operations over 8 prefix-related hex paths, 2 values, removal through Delete / Insert(nil) / Insert(empty value) in turn, an over-size Insert after every one-operation history, memory store from the empty trie and from the base contents {12,1234,5678} and {12,1234,1235}; base {12,1234,5678} also on a layered store (operations one version above the base, in a new level) and on the persistent store\"\n", cases, fails, depth)
+	fmt.Printf("GOCV-BOUNDED cases=%d failures=%d scope=\"all sequences of <= %d insert/update/delete operations over 9 prefix-related hex paths, 2 values, removal through Delete / Insert(nil) / Insert(empty value) in turn, an over-size Insert after every one-operation history, memory store from the empty trie and from the base contents {12,1234,5678} and {12,1234,1235}; base {12,1234,5678} also on a layered store (operations one version above the base, in a new level) and on the persistent store\"\n", cases, fails, depth)
 	if fails > 0 {
 		t.Fail()
 	}
